@@ -15,8 +15,9 @@ ORACLES (library code that is not translated):
   is `GoLite.hasBits m fs.ModeSymlink` (class `GoLite.HasBits`, declared below for the translator).
 * crypto/x509 on a certificate: `c.CheckSignature(c.SignatureAlgorithm, c.RawTBSCertificate, c.Signature)`
   is the field `selfSigErr` (any error or nil); `c.CheckSignatureFrom(c)` first applies the
-  basic-constraints / key-usage test to the parent - the field `signOk` - and then checks the same
-  signature under the same key. (This reading of `CheckSignatureFrom` is what the correspondence
+  basic-constraints / key-usage test to the parent - the field `signOk` -, then refuses SHA-1 and
+  MD5 based algorithms outright (`x509.InsecureAlgorithmError`, the field `weakSig`) and then checks
+  the same signature under the same key. (This reading of `CheckSignatureFrom` is what the correspondence
   harness re-measures on every pool certificate.) Applied to other arguments both fail: the
   translated code makes no other call, and if it started to, the ties would break.
 * `regexp.MustCompile(text).MatchString(s)`: Go's regexp on the one expression of
@@ -79,6 +80,7 @@ structure Certificate where
   RawTBSCertificate : List Nat
   Signature : List Nat
   signOk : Bool                    -- ORACLE: own key admitted to sign certificates
+  weakSig : Bool                   -- ORACLE: signature algorithm refused by CheckSignatureFrom (SHA-1, MD5)
   selfSigErr : Option GoLite.Err   -- ORACLE: result of checking the signature under the own key
   deriving DecidableEq, Repr, Inhabited
 /-- ORACLE, see the head of this file -/
@@ -87,7 +89,9 @@ def Certificate.CheckSignature (c : Certificate) (alg : Nat) (tbs sig : List Nat
   else some ⟨"x509: not the certificate's own signature"⟩
 /-- ORACLE, see the head of this file -/
 def Certificate.CheckSignatureFrom (c parent : Certificate) : Option GoLite.Err :=
-  if parent.id = c.id then (if c.signOk then c.selfSigErr else some ⟨"x509.ConstraintViolationError"⟩)
+  if parent.id = c.id then
+    (if c.signOk then (if c.weakSig then some ⟨"x509.InsecureAlgorithmError"⟩ else c.selfSigErr)
+     else some ⟨"x509.ConstraintViolationError"⟩)
   else some ⟨"x509: not the certificate itself"⟩
 end x509
 
